@@ -509,6 +509,55 @@ def make_x7(backend, chunk, seed, per_chunk=120):
     return run
 
 
+def x9_check():
+    """alias() / subqueries on SQL against the same pipelines on Polars: generated table aliases and generated subquery column
+    names never collide with real names, the subquery carries the grouping columns, and the row order fixed before an alias
+    survives the subquery (also as the tie breaker of a later arrange)"""
+    import warnings
+
+    import polars as pl
+    import sqlalchemy as sqa
+
+    C = pdt.C
+    df = pl.DataFrame({"a": [3, 1, 2, 2, None, 1], "b": list("xyzwvu"), "c": [1.5, -2.0, 0.0, None, 4.0, 2.5], "k": [9, 5, 7, 2, 8, 3], "g": [1, 1, 1, 2, 2, 2]})
+    eng = sqa.create_engine("sqlite://")
+    df.write_database("t", eng)
+    df.write_database("t_1", eng)
+    n, bad = 0, []
+
+    def tabs(be):
+        if be == "polars":
+            return pdt.Table(df, name="t"), pdt.Table(df, name="t_1")
+        return pdt.Table("t", pdt.SqlAlchemy(eng)), pdt.Table("t_1", pdt.SqlAlchemy(eng))
+
+    cases = {
+        "self-join + join with a real table named like the generated alias (t_1)": (lambda t, t1: (lambda s: t >> pdt.inner_join(s, t.b == s.b) >> pdt.inner_join(t1, t.b == t1.b))(t >> pdt.alias()), False),
+        "two self-joins + table t_1 first": (lambda t, t1: (lambda s, s2: t1 >> pdt.inner_join(t, t.b == t1.b) >> pdt.inner_join(s, t.b == s.b) >> pdt.inner_join(s2, t.b == s2.b))(t >> pdt.alias(), t >> pdt.alias()), False),
+        "hidden column a renamed inside the subquery next to a column a_1": (lambda t, t1: t >> pdt.mutate(a_1=t.a * 100) >> pdt.mutate(a=t.a + 1) >> pdt.arrange(t.k) >> pdt.slice_head(4) >> pdt.alias(keep_col_refs=True) >> pdt.filter(t.a > 0), False),
+        "grouping column neither selected nor referenced above the subquery": (lambda t, t1: t >> pdt.group_by(t.a) >> pdt.mutate(r=pdt.row_number(arrange=t.k)) >> pdt.alias() >> pdt.filter(C.r == 1) >> pdt.summarize(n=pdt.count()) >> pdt.select(C.n), False),
+        "arrange before alias() is kept by the outer query": (lambda t, t1: (lambda s: s >> pdt.filter(s.r <= 5) >> pdt.select(s.k))(t >> pdt.mutate(r=pdt.row_number(arrange=t.k)) >> pdt.arrange(t.k.descending()) >> pdt.alias()), True),
+        "arrange before alias() breaks the ties of an arrange after it": (lambda t, t1: (lambda s: s >> pdt.filter(s.r <= 3) >> pdt.arrange(s.g) >> pdt.select(s.k))(t >> pdt.mutate(r=pdt.row_number(arrange=t.c.nulls_last(), partition_by=t.g)) >> pdt.arrange(t.k) >> pdt.alias()), True),
+        "window function without arrange= after the alias sees the order fixed before it": (lambda t, t1: (lambda s: s >> pdt.filter(s.r <= 5) >> pdt.mutate(sh=s.k.shift(1)) >> pdt.select(s.k, C.sh))(t >> pdt.mutate(r=pdt.row_number(arrange=t.k)) >> pdt.arrange(t.k.descending()) >> pdt.alias()), True),
+    }
+    with warnings.catch_warnings():
+        warnings.simplefilter("ignore")
+        for label, (mk, ordered) in cases.items():
+            n += 1
+            res = {}
+            for be in ("polars", "sqlite"):
+                try:
+                    out = mk(*tabs(be)) >> pdt.export(pdt.Polars())
+                    rows = out.rows()
+                    res[be] = (out.columns, rows if ordered else sorted(rows, key=str))
+                except (pdt.errors.SubqueryError, pdt.errors.NotSupportedError):
+                    res[be] = "refused"
+                except Exception as e:  # noqa: BLE001
+                    res[be] = f"raises {type(e).__name__}: {str(e)[:120]}"
+            if isinstance(res["polars"], str) or (res["sqlite"] != "refused" and res["sqlite"] != res["polars"]):
+                bad.append(f"{label}: polars {res['polars']}; sqlite {res['sqlite']}")
+    return n, bad
+
+
 def _conc(goal, fn):
     def run(carve):
         n, bad = fn()
@@ -531,6 +580,8 @@ def obligations(tier):
     for ls, rs in itertools.product(sk, sk):
         obs.append(Obligation(f"C16/X4/{ls}<-{rs}", "X4", "transfer_col_references", make_x4(ls, rs), functions=[fi(pdt._internal.pipe.cache.transfer_col_references), fi(TS.Cache.update)], bounded=f"widths {ls.w}, {rs.w} (names symbolic)"))
     obs.append(Obligation("C16/X3/collect", "X3", "collect() keeps names, order, data, types, references and grouping", _conc("collect() on 8 pipelines x keep_col_refs", x3_check), functions=[fi(verbs_mod.collect), fi(H.table_impl_mod.TableImpl.from_resource)], bounded="13 concrete pipelines (incl. renames and joins with automatic suffixes, references taken before them) on two frames (native Polars execution)"))
+    obs.append(Obligation("C16/X9/subquery_names_and_order", "X9", "alias() / subqueries on SQL: generated aliases and column names, grouping columns, row order across the subquery (native, vs Polars)", _conc("pipelines with alias() give the same table on SQLite as on Polars", x9_check),
+                          functions=[fi(H.sql_backend.create_aliases), fi(H.sql_backend.SqlImpl.compile_ast)], bounded="7 pipelines x 2 backends on one 6-row table"))
     obs.append(Obligation("C16/X5/self_join", "X5", "self-join after alias() on Polars and SQLite", _conc("self-joins of aliased (derived) tables execute and match the expected row count; occurrences are aliased apart in SQL", x5_check),
                           functions=[fi(verbs_mod.join), fi(H.sql_backend.create_aliases), fi(VT.Join._clone)], bounded="3 concrete self-join shapes x 2 backends (native execution)"))
     obs.append(Obligation("C16/X5b/self_join_sides", "X5", "self-join with the alias copy on either side: references denote the right side", _conc("references through either table object of an aliased self-join denote that side (4 shapes x 2 backends, against a hand-computed expectation)", x5b_check),
